@@ -1,6 +1,9 @@
 SPECIFICATION Spec
 CONSTANT N = 3
 CONSTANT Mode = "child-only"
+CONSTANT TtyMode = "both"
 INVARIANT OwnGroup
 INVARIANT TerminalGiven
+INVARIANT RunsOwningTerminal
+INVARIANT PromptOwnsTerminal
 CHECK_DEADLOCK FALSE
